@@ -425,6 +425,12 @@ static const char *step1(const vh_step_t *st, vh_sb *ret, vh_sb *state) {
     else if (OP("index")) sb_int(ret, (long) V->index(self, (spif_char_t) vh_int(ARG(0))));
     else if (OP("rindex")) sb_int(ret, (long) V->rindex(self, (spif_char_t) vh_int(ARG(0))));
     else if (OP("find_from_ptr")) { p = vh_bytes(ARG(0), &n, 1); sb_int(ret, (long) V->find_from_ptr(self, (spif_charptr_t) p)); }
+    /* the C-string argument is the object's own text from offset k (source inside the receiver: allowed for queries) */
+    else if (OP("find_from_ptr_own")) { long k = vh_int(ARG(0)); sb_int(ret, (long) V->find_from_ptr(self, self->s ? self->s + k : (spif_charptr_t) "")); }
+    else if (OP("cmp_with_ptr_own")) { long k = vh_int(ARG(0)); sb_int(ret, (long) V->cmp_with_ptr(self, self->s ? self->s + k : (spif_charptr_t) "")); }
+    else if (OP("casecmp_with_ptr_own")) { long k = vh_int(ARG(0)); sb_int(ret, (long) V->casecmp_with_ptr(self, self->s ? self->s + k : (spif_charptr_t) "")); }
+    else if (OP("ncmp_with_ptr_own")) { long k = vh_int(ARG(0)); sb_int(ret, (long) V->ncmp_with_ptr(self, self->s ? self->s + k : (spif_charptr_t) "", (spif_stridx_t) xint(ARG(1)))); }
+    else if (OP("ncasecmp_with_ptr_own")) { long k = vh_int(ARG(0)); sb_int(ret, (long) V->ncasecmp_with_ptr(self, self->s ? self->s + k : (spif_charptr_t) "", (spif_stridx_t) xint(ARG(1)))); }
     else if (OP("find")) sb_int(ret, (long) V->find(self, other));
     else if (OP("find_self")) sb_int(ret, (long) V->find(self, self));
     else if (OP("substr")) {
